@@ -340,7 +340,11 @@ def run (case impl : String) : String × String :=
     else
       let m := strOfOut c (model miniRe c)
       let v := match outOfStr impl with
-        | some o => if spec miniRe c o then "ok" else "viol"
+        | some o =>
+          if spec miniRe c o then
+            -- `na`: some entry is ill-formed, the property is silent (only model = code is compared)
+            (if (specEntries miniRe c.groups).isSome then "ok" else "na")
+          else "viol"
         | none => "unparsed"
       (m, v)
 
